@@ -15,6 +15,7 @@ import (
 	"os/exec"
 	"path/filepath"
 	"runtime"
+	"runtime/debug"
 	"sort"
 	"strconv"
 	"strings"
@@ -406,7 +407,24 @@ func trunc(s string, n int) string {
 // Run evaluates one case function; if it reports a violation the case is re-run 5 times and
 // must report the same class every time (owned nondeterminism), then it is classified
 // against the known findings.
-func (c *Ctx) Run(f func() *Viol) *Viol {
+func (c *Ctx) Run(f0 func() *Viol) *Viol {
+	// a Go panic escaping the code under test (API-level checks call it directly) is a violation of the case being
+	// run, not a reason for the worker to die without a verdict
+	f := func() (v *Viol) {
+		defer func() {
+			if r := recover(); r != nil {
+				msg := fmt.Sprint(r)
+				if len(msg) > 120 {
+					msg = msg[:120]
+				}
+				c.cur.mu.Lock()
+				cs := c.cur.cs
+				c.cur.mu.Unlock()
+				v = &Viol{Class: "panic: " + msg, Detail: string(debug.Stack()), Case: cs}
+			}
+		}()
+		return f0()
+	}
 	v := f()
 	if v == nil {
 		return nil
